@@ -5,7 +5,8 @@
    protocol, for every schedule of any number of clients. *)
 From Coq Require Import List NArith.
 From Coq.Strings Require Import Byte.
-From GI Require Import Gen.LockedFileConsts LockedFile.LockedFile LockedFile.LockBasics LockedFile.LockProofs LockedFile.MutexFacts.
+From GI Require Import Gen.LockedFileConsts LockedFile.LockedFile LockedFile.LockBasics LockedFile.LockProofs LockedFile.MutexFacts
+  LockedFile.LockedFileA LockedFile.LockProofsA.
 Import ListNotations.
 
 Theorem C06_write_flags_exclusive : forall flags,
@@ -128,3 +129,80 @@ Theorem C06_open_error_is_returned : forall fl b i c plan s s',
   ([(OOpen (strip fl openfile_strip_mask), RErr)], Finished ResErr, s').
 Proof. exact open_error_is_returned. Qed.
 Print Assumptions C06_open_error_is_returned.
+
+(* ---- with inode attributes: files that are not regular (Truncate fails and is ignored) and
+   files the caller may not open; the model above is the special case of default attributes *)
+Theorem C06_plain_model_is_special_case : forall cfg f s,
+  reachable cfg f s <-> reachable_a (lift cfg) f s.
+Proof. exact reachable_lift. Qed.
+Print Assumptions C06_plain_model_is_special_case.
+
+Theorem C06_attr_exclusion : forall cfg f s c d,
+  wf_cfg_a cfg -> reachable_a cfg f s ->
+  c <> d -> ca_ino (cfg c) = ca_ino (cfg d) -> in_cs s c -> in_cs s d ->
+  mode_of_a cfg c = Some LSh /\ mode_of_a cfg d = Some LSh.
+Proof. exact exclusion_a. Qed.
+Print Assumptions C06_attr_exclusion.
+
+Theorem C06_attr_held_until_close : forall cfg f s c,
+  wf_cfg_a cfg -> reachable_a cfg f s ->
+  (progs s c = after_open (body_of_call (ca_call (cfg c))) \/ in_cs s c \/
+   exists x, progs s c = close_prog (Ret x)) ->
+  exists m, mode_of_a cfg c = Some m /\ holds_lock_a cfg s c m.
+Proof. exact held_from_before_return_to_unlock_a. Qed.
+Print Assumptions C06_attr_held_until_close.
+
+Theorem C06_attr_released_by_close : forall cfg f s c r,
+  wf_cfg_a cfg -> reachable_a cfg f s -> returned s c r ->
+  forall i k, holds c k (ltab (st_os s) i) = false.
+Proof. exact released_by_close_a. Qed.
+Print Assumptions C06_attr_released_by_close.
+
+Theorem C06_attr_io_under_lock : forall cfg f s c o,
+  wf_cfg_a cfg -> reachable_a cfg f s ->
+  first_op (progs s c) = Some o -> is_io o = true ->
+  exists m, mode_of_a cfg c = Some m /\ holds_lock_a cfg s c m.
+Proof. exact io_under_lock_a. Qed.
+Print Assumptions C06_attr_io_under_lock.
+
+(* Create on a FIFO or device node: Truncate fails, is ignored, the caller holds the exclusive
+   lock through its critical section, Close releases it *)
+Theorem C06_create_on_nonregular : forall old,
+  match run_seq_a nonregular 0 0 (prog_of_call_a nonregular (CCreate (Ret ResOk))) no_faults 0
+                  (os_with (Some old)) with
+  | (tr, out, s') =>
+      tr = [(OOpen (strip create_flags openfile_strip_mask), ROk); (OFlock sys_LOCK_EX, ROk);
+            (OFtruncate (N.to_nat truncate_size), RErr); (OMark MReturned, ROk);
+            (OMark MCloseCalled, ROk); (OFlock sys_LOCK_UN, ROk); (OClose, ROk)] /\
+      out = Finished ResOk /\ files s' 0 = Some old /\ ltab s' 0 = [] /\ fds s' 0 = None
+  end.
+Proof. exact create_on_nonregular. Qed.
+Print Assumptions C06_create_on_nonregular.
+
+Theorem C06_nonregular_returned_locked : forall cfg f s c,
+  wf_cfg_a cfg -> reachable_a cfg f s ->
+  a_regular (ca_attr (cfg c)) = false ->
+  progs s c = after_open (body_of_call (ca_call (cfg c))) ->
+  exists m, mode_of_a cfg c = Some m /\ holds_lock_a cfg s c m.
+Proof. exact nonregular_returned_locked. Qed.
+Print Assumptions C06_nonregular_returned_locked.
+
+(* Mutex.Lock by a caller who may read but not write the lock file: the open error is returned,
+   no lock is taken (no fallback to a read-only, shared-locking open) *)
+Theorem C06_mutex_on_readonly_lock_file : forall b0,
+  match run_seq_a readonly 0 0 (prog_of_call_a readonly CMutex) no_faults 0 (os_with (Some b0)) with
+  | (tr, out, s') =>
+      tr = [(OOpen (strip mutex_flags openfile_strip_mask), RErr)] /\ out = Finished ResErr /\
+      ltab s' 0 = [] /\ fds s' 0 = None
+  end.
+Proof. exact mutex_on_readonly_lock_file. Qed.
+Print Assumptions C06_mutex_on_readonly_lock_file.
+
+Theorem C06_denied_client_never_locks : forall cfg f sched c,
+  let s := run_a cfg (init_state_a cfg f) sched in
+  f (ca_ino (cfg c)) <> None ->
+  open_denied (ca_attr (cfg c)) (strip (flags_of_call (ca_call (cfg c))) openfile_strip_mask) = true ->
+  (progs s c = prog_of_call_a (ca_attr (cfg c)) (ca_call (cfg c)) \/ progs s c = Ret ResErr) /\
+  fds (st_os s) c = None /\ status s c = SIdle /\ files (st_os s) (ca_ino (cfg c)) <> None.
+Proof. exact denied_client_never_locks. Qed.
+Print Assumptions C06_denied_client_never_locks.
